@@ -67,10 +67,17 @@ JudgeIntercept(e) ==
   ELSE (IF ~e.proxied.hang /\ e.proxied.bcalls = 1 /\ ~InterceptOK(e, e.proxied) THEN {"InterceptProxied"} ELSE {})
        \cup (IF e.hashttp /\ ~e.http.hang /\ e.http.bcalls = 1 /\ ~InterceptOK(e, e.http) THEN {"InterceptProxiedHTTP"} ELSE {})
 
+\* Proxy.tla NoPumpOutlivesHandler, observed: when the forwarder has returned to the interceptor nothing of it is still
+\* using the interceptor's stream (C13: whatever state the stream wrapper keeps would be raced on)
+JudgePump(e) ==
+  IF e.crash # "" THEN {}
+  ELSE (IF ~e.proxied.hang /\ e.proxied.icalls = 1 /\ e.proxied.ilate > 0 THEN {"PumpOutlivesHandler"} ELSE {})
+       \cup (IF e.hashttp /\ ~e.http.hang /\ e.http.icalls = 1 /\ e.http.ilate > 0 THEN {"PumpOutlivesHandlerHTTP"} ELSE {})
+
 TProxy ==
   /\ l <= Len(Trace) /\ Trace[l].ev = "Proxy"
   /\ LET e == Trace[l] IN
-       /\ failed' = failed \cup {<<e.case, l, f>> : f \in Judge(e) \cup JudgeHTTP(e) \cup JudgeIntercept(e)}
+       /\ failed' = failed \cup {<<e.case, l, f>> : f \in Judge(e) \cup JudgeHTTP(e) \cup JudgeIntercept(e) \cup JudgePump(e)}
        /\ stat' = [stat EXCEPT !.calls = @ + 1, !.httpCalls = @ + (IF e.hashttp THEN 1 ELSE 0), !.failing = @ + (IF Fails(e.s) THEN 1 ELSE 0),
                                !.lockstep = @ + (IF LockStep(e.s) THEN 1 ELSE 0), !.ctxCodes = @ + (IF Fails(e.s) /\ e.s.code \in {1, 4} THEN 1 ELSE 0),
                                !.streaming = @ + (IF e.s.shape # "unary" THEN 1 ELSE 0),
